@@ -83,6 +83,7 @@ func checkC04(c CaseC04, info *Info) *Failure {
 		mxj.XmlGoEmptyElemSyntax()
 		info.Class("Go empty-element syntax")
 	}
+	bystanders()
 	doc := c.Doc.String()
 	want, err := rawTokens([]byte(doc))
 	if err != nil {
